@@ -28,6 +28,8 @@ structure Decl where
   name : Str
   ver : Str
   deps : List Dep
+  /-- the declared table file does not exist on disk (`Product.getTable` raises `TableFileNotFound`) -/
+  tableMissing : Bool := false
 deriving Repr, DecidableEq
 
 structure Db where
@@ -61,6 +63,15 @@ def Db.table (db : Db) (p : Prod) : List Dep :=
     | some d => d.deps
     | none => []
   | _, _ => []
+
+/-- `product.getTable()` raises `TableFileNotFound` -/
+def Db.tableMissing (db : Db) (p : Prod) : Bool :=
+  match p.real, p.ver with
+  | true, some v =>
+    match db.decls.find? (fun d => d.name == p.name && d.ver == v) with
+    | some d => d.tableMissing
+    | none => false
+  | _, _ => false
 
 /-- `Eups.findProduct(name, version)` / `findProductFromVRO(name, version)` under the simple rule -/
 def Db.find (db : Db) (n : Str) (v : Option Str) : Option Prod :=
@@ -96,6 +107,8 @@ def St.empty : St := ⟨[], [], []⟩
 def prodkey (p : Prod) : Str × Option Str := (p.name, p.ver)
 
 /-- The body of the `for a in self.actions(...)` loop of `Table.dependencies` for the table of `top`.
+(In the unsetup branch `thisProduct.getTable()` of a product whose table file is missing raises out of the loop;
+that combination — unsetup lines and a missing table file in one stack — is not modelled.)
 `recur p depth st` is the recursive call on the table of `p`; `fresh p` is the call
 `table.dependencies(Eups, recursive=True)` of the unsetup branch (fresh visited set, no required
 versions), returning the names listed.  `none` = out of fuel somewhere below. -/
@@ -125,6 +138,14 @@ def depsLoop (db : Db) (req : Required)
           { st with edges := st.edges ++ [(top, p)] }
       | some p =>
         if recursive && !d.noRec && !st.seen.contains (prodkey p) then
+          if db.tableMissing p then
+            -- `deptable = product.getTable()` raises TableFileNotFound after the entry was appended and the
+            -- product marked: the handler appends the placeholder too, and the dictionary records the placeholder
+            let ph : Prod := ⟨d.name, d.ver, false⟩
+            depsLoop db req recur fresh top recursive depth ds
+              (acc ++ [⟨p, d.optional, dp⟩, ⟨ph, d.optional, dp⟩])
+              { st with seen := prodkey p :: st.seen, edges := st.edges ++ [(top, ph)] }
+          else
           match recur p (depth + 1) { st with seen := prodkey p :: st.seen } with
           | none => none
           | some (sub, st') =>
@@ -199,6 +220,8 @@ def uniqueLast (l : List Entry) : List Entry :=
   go l.reverse [] []
 
 def getDependentProducts (db : Db) (fuel : Nat) (top : Prod) (topological checkCycles : Bool) : Outcome :=
+  -- `prodtbl = topProduct.getTable()`; TableFileNotFound is printed and the listing is empty
+  if db.tableMissing top then .ok [] else
   match listing db fuel [] top with
   | none => .outOfFuel
   | some (out, _) =>
@@ -299,6 +322,7 @@ def layerRaisesPinned (l : List Prod) : Bool := l.any fun p => l.any fun q => in
 
 /-- the layers `getDependentProducts(topological=True)` obtains from `topologicalSort`; `none` = out of fuel -/
 def topoLayers (db : Db) (fuel : Nat) (top : Prod) (checkCycles : Bool) : Option (Topo.Result Prod) :=
+  if db.tableMissing top then none else
   match listing db fuel [] top with
   | none => none
   | some (out, _) =>
